@@ -151,7 +151,7 @@ func (w *workerState) start() (*live, error) {
 	if err := os.WriteFile(fn, initialModel().Render(w.base), 0o644); err != nil {
 		return nil, err
 	}
-	p, ok := core.New([]string{fn})
+	p, ok := c12lib.StartCore(fn, 8)
 	if !ok {
 		return nil, fmt.Errorf("core.New failed")
 	}
